@@ -143,7 +143,10 @@ def perform(query, family, par, ch, objs=None):
     from anytree.walker import WalkError
 
     if objs is None:
-        N.build_forest(family, par, ch)
+        try:
+            N.build_forest(family, par, ch)
+        except Exception as e:  # noqa
+            return {"build_failed": True, "built": "raised %s" % type(e).__name__}
         built = N.snapshot()
         if built[0] != par or built[1] != ch:
             return {"build_failed": True, "built": built}
@@ -264,6 +267,7 @@ def worker_init(repo, assertions=False):
     from . import nodes  # noqa
 
 
+@core.safe_worker
 def replay_chunk(args):
     lines, families, lockstep = args
     out = {"n": 0, "same": 0, "attention": [], "per_kind": {}, "lockstep_diff": [], "dropped": 0}
